@@ -11,16 +11,23 @@ from sa.absnp import Arr
 from sa.fold import EvalRaised, Unknown
 
 
+class Pruned(Unknown):
+    "the run needs more choice points than the exploration depth allows: the branch is left unexplored (and counted)"
+
+
 class Script:
     "the choices of one run: (index taken, number of alternatives) per choice point, replayed as a prefix on the next run"
 
-    def __init__(self) -> None:
+    def __init__(self, max_depth: int | None = None) -> None:
         self.trace: list[list[int]] = []
         self.pos = 0
+        self.max_depth = max_depth
 
     def choose(self, n: int) -> int:
         if n <= 0:
             raise Unknown("choice among no alternatives")
+        if self.max_depth is not None and self.pos >= self.max_depth:
+            raise Pruned()
         if self.pos < len(self.trace):
             i, m = self.trace[self.pos]
             if m != n:
@@ -42,9 +49,13 @@ class Script:
         return True
 
 
-def explore(run: Callable[[Script], Any], max_runs: int = 20000):
-    "yield (choices, outcome) for every sequence of choices; outcome is the value, or the EvalRaised instance"
-    sc = Script()
+PRUNED = object()
+
+
+def explore(run: Callable[[Script], Any], max_runs: int = 20000, max_depth: int | None = None):
+    """yield (choices, outcome) for every sequence of choices; outcome is the value, the EvalRaised instance, or PRUNED for a branch cut
+    at max_depth choice points (random walks that can go on for ever are explored up to that depth)"""
+    sc = Script(max_depth)
     n = 0
     while True:
         sc.pos = 0
@@ -52,6 +63,8 @@ def explore(run: Callable[[Script], Any], max_runs: int = 20000):
             out = run(sc)
         except EvalRaised as e:
             out = e
+        except Pruned:
+            out = PRUNED
         yield [i for i, _ in sc.trace[:sc.pos]], out
         n += 1
         if n >= max_runs:
@@ -64,10 +77,16 @@ def explore(run: Callable[[Script], Any], max_runs: int = 20000):
 
 def models(sc: Script) -> dict[str, Callable]:
     def randint_np(lo, hi=None, size=None, **_k):
-        if size is not None:
-            raise Unknown("np.random.randint with a size")
         if hi is None:
             lo, hi = 0, lo
+        if size is not None or isinstance(lo, Arr) or isinstance(hi, Arr):
+            # one independent draw per component (bounds broadcast against the requested size)
+            n = int(size) if size is not None else max(len(x) for x in (lo, hi) if isinstance(x, Arr))
+            los = list(lo.data) if isinstance(lo, Arr) else [lo] * n
+            his = list(hi.data) if isinstance(hi, Arr) else [hi] * n
+            if len(los) != n or len(his) != n:
+                raise EvalRaised("ValueError", "shape mismatch: objects cannot be broadcast to a single shape")
+            return Arr([randint_np(a_, b_) for a_, b_ in zip(los, his)])
         lo, hi = int(lo), int(hi)
         if lo >= hi:
             raise EvalRaised("ValueError", "low >= high")
